@@ -17,8 +17,10 @@ func runC04(c *pure.Ctx) {
 	type expr struct {
 		e      string
 		period int
+		tz     string
 	}
-	exprs := []expr{{"*/10 * * * * * *", 10}, {"* * * * *", 60}}
+	// the third expression matches once, 5 minutes before the restart instant, in a non-UTC zone
+	exprs := []expr{{"*/10 * * * * * *", 10, ""}, {"* * * * *", 60, ""}, {"55 7 * * *", 86400, "Asia/Singapore"}}
 	lastScheduled := []*int{nil, ip(0), ip(-10), ip(-60), ip(-299), ip(-300), ip(-301), ip(-1000)}
 	downtimes := []int64{0, 30, 600}
 	caps := []int{1, 3, 5}
@@ -51,10 +53,10 @@ func runC04(c *pure.Ctx) {
 									return
 								}
 								p := Pop{Name: "c04", K: k, Downtime: dt, StartMs: st, JCs: []JC{
-									{Name: "a", Exprs: []string{ex.e}, LastScheduled: ls, LastUpdated: lu, NotBefore: nb},
-									{Name: "fresh", Exprs: []string{ex.e}},
+									{Name: "a", Exprs: []string{ex.e}, TZ: ex.tz, LastScheduled: ls, LastUpdated: lu, NotBefore: nb},
+									{Name: "fresh", Exprs: []string{ex.e}, TZ: ex.tz},
 								}}
-								desc := fmt.Sprintf("expr=%q lastScheduled=%s lastUpdated=%s notBefore=%s downtime=%d cap=%d startMs=%d", ex.e, offs(ls), offs(lu), offs(nb), dt, k, st)
+								desc := fmt.Sprintf("expr=%q tz=%q lastScheduled=%s lastUpdated=%s notBefore=%s downtime=%d cap=%d startMs=%d", ex.e, ex.tz, offs(ls), offs(lu), offs(nb), dt, k, st)
 								h := NewHarness(p, true)
 								c.Eval()
 								if h.InitErr != nil {
